@@ -121,14 +121,105 @@ class _MatchAsIf(ast.NodeTransformer):
         return ast.fix_missing_locations(out)
 
 
+class _AppendLoopAsComp(ast.NodeTransformer):
+    """Front-end normalisation:
+
+        NAME = []
+        for T in ITER:            (optionally: if COND:)
+            NAME.append(EXPR)
+
+    is `NAME = [EXPR for T in ITER (if COND)]` when the loop has no else,
+    its body is that one statement, EXPR / COND do not mention NAME and the
+    loop variables are not read after the loop (a comprehension does not
+    leave them bound)."""
+
+    def _rewrite(self, body, scope_rest):
+        out = []
+        i = 0
+        while i < len(body):
+            st = body[i]
+            nxt = body[i + 1] if i + 1 < len(body) else None
+            done = False
+            if isinstance(st, ast.Assign) and len(st.targets) == 1 and \
+                    isinstance(st.targets[0], ast.Name) and isinstance(
+                        st.value, ast.List) and not st.value.elts and \
+                    isinstance(nxt, ast.For) and not nxt.orelse and \
+                    len(nxt.body) == 1:
+                name = st.targets[0].id
+                inner = nxt.body[0]
+                cond = None
+                if isinstance(inner, ast.If) and not inner.orelse and len(
+                        inner.body) == 1:
+                    cond, inner = inner.test, inner.body[0]
+                call = inner.value if isinstance(inner, ast.Expr) else None
+                if isinstance(call, ast.Call) and isinstance(
+                        call.func, ast.Attribute) and call.func.attr == \
+                        'append' and isinstance(call.func.value, ast.Name) \
+                        and call.func.value.id == name and len(
+                            call.args) == 1 and not call.keywords:
+                    tvars = {n.id for n in ast.walk(nxt.target)
+                             if isinstance(n, ast.Name)}
+                    mentions = lambda x: x is not None and any(
+                        isinstance(n, ast.Name) and n.id == name
+                        for n in ast.walk(x))
+                    fn = getattr(self, '_fn', None)
+                    later = [n for n in ast.walk(fn)] if fn is not None \
+                        else [n for s2 in body[i + 2:] for n in ast.walk(s2)]
+                    end = getattr(nxt, 'end_lineno', nxt.lineno)
+                    reads_tvar = any(isinstance(n, ast.Name) and n.id in
+                                     tvars and isinstance(n.ctx, ast.Load)
+                                     and getattr(n, 'lineno', 0) > end
+                                     for n in later)
+                    has_flow = any(isinstance(n, (ast.Yield, ast.YieldFrom,
+                                                  ast.Await, ast.NamedExpr))
+                                   for n in ast.walk(nxt))
+                    if not mentions(call.args[0]) and not mentions(cond) \
+                            and not mentions(nxt.iter) and not reads_tvar \
+                            and not has_flow:
+                        comp = ast.ListComp(elt=call.args[0], generators=[
+                            ast.comprehension(
+                                target=nxt.target, iter=nxt.iter,
+                                ifs=[cond] if cond is not None else [],
+                                is_async=0)])
+                        ast.copy_location(comp, nxt)
+                        new = ast.Assign(targets=st.targets, value=comp)
+                        ast.copy_location(new, nxt)
+                        new.lineno = st.lineno
+                        out.append(ast.fix_missing_locations(new))
+                        i += 2
+                        done = True
+            if not done:
+                out.append(st)
+                i += 1
+        return out
+
+    def visit_FunctionDef(self, node):
+        prev = getattr(self, '_fn', None)
+        self._fn = node
+        try:
+            return self.generic_visit(node)
+        finally:
+            self._fn = prev
+    visit_AsyncFunctionDef = visit_FunctionDef
+
+    def generic_visit(self, node):
+        node = super().generic_visit(node)
+        for fld in ('body', 'orelse', 'finalbody'):
+            blk = getattr(node, fld, None)
+            if isinstance(blk, list) and blk and isinstance(blk[0],
+                                                            ast.stmt):
+                setattr(node, fld, self._rewrite(blk, []))
+        return node
+
+
 class Module:
     def __init__(self, name, path, source):
         self.name = name
         self.path = path
         self.source = source
         self.sha256 = hashlib.sha256(source.encode()).hexdigest()
-        self.tree = _MatchAsIf().visit(_SuppressAsTry().visit(
-            ast.parse(source, filename=path)))
+        self.tree = _AppendLoopAsComp().visit(_MatchAsIf().visit(
+            _SuppressAsTry().visit(ast.parse(source, filename=path))))
         self.imports = {}     # local name -> qualified target
         self.aliases = {}     # module-level NAME = dotted expr
         self.consts = {}      # module-level NAME = constant ast node
